@@ -1162,6 +1162,8 @@ class Wrapc(util.WrapperMixin):
 
         return_deref_attr = ast.metaattrs["deref"]
         if result_blk.return_type:
+            # The C wrapper returns another type than the library function.
+            need_wrapper = True
             fmt_func.C_return_type = wformat(
                 result_blk.return_type, fmt_result)
         elif return_deref_attr == "scalar":
@@ -1250,6 +1252,7 @@ class Wrapc(util.WrapperMixin):
             final_code.append("-}")
 
         if result_blk.ret:
+            need_wrapper = True
             raw_return_code = result_blk.ret
         elif return_deref_attr == "scalar":
             # dereference pointer to return scalar
